@@ -357,6 +357,46 @@ func runC12(c *Ctx) {
 	c.Rule("R12.6", "E3", "a watch resumed from a bookmark by the gRPC client is the same watch: every field of the initial request (ID and label queries, aggregation, API version) is carried over, only bootstrap/tail/bookmark differ — interrupted + resumed equals uninterrupted", 6)
 	resumeRequestRule(c, "R12.6")
 
+	// ---------- R12.7 the tail walk ends by its own guard only
+	c.Rule("R12.7", "E1", "single-resource tail: the backwards walk over the ring is left only through its own condition (retention floor reached, or the requested number of events found) — no early exit from the body, so exactly the last N retained events of the resource are replayed", 1)
+
+	if f := p.Method(pkgInmem, "ResourceCollection", "Watch"); c.NeedFunc("R12.7", f, collT+".Watch") {
+		slotRead := func(in ssa.Instruction) bool {
+			ia, ok := in.(*ssa.IndexAddr)
+
+			return ok && LoadsField(ia.X, "ResourceCollection", "stream")
+		}
+
+		n := 0
+
+		for _, in := range Find(f, slotRead) {
+			loops := loopsContaining(f, in.Block())
+			if len(loops) == 0 {
+				continue
+			}
+
+			n++
+
+			bad := ""
+
+			for _, body := range loops {
+				for b := range body {
+					for _, s := range b.Succs {
+						if !body[s] && !dominates(b, in.Block()) {
+							bad = fmt.Sprintf("block %d leaves the walk after the slot was examined (break / return from the body)", b.Index)
+						}
+					}
+				}
+			}
+
+			c.Check(bad == "", "R12.7", FuncName(f)+" :: tail walk is left only through its guard", in.Pos(), "all exits are guard exits", bad)
+		}
+
+		if n == 0 {
+			c.Unknown("R12.7", FuncName(f)+" :: tail walk is left only through its guard", fpos(f), "anchor-unresolved: no loop reading the ring in Watch")
+		}
+	}
+
 }
 
 // mustCutEachLin: like mustCutEach with canonical linear atoms.
@@ -391,4 +431,38 @@ func (c *Ctx) errPropagatesOrPanics(rule string, f *ssa.Function, call ssa.CallI
 	}
 
 	c.Check(!bad, rule, FuncName(f)+" :: error of "+p.CalleeName(call)+" is checked", call.Pos(), "failure edge panics / returns the error", "failure edge continues: "+strings.Join(w, " "))
+}
+
+// loopsContaining returns the natural loops (as block sets) of f that contain block b.
+func loopsContaining(f *ssa.Function, b *ssa.BasicBlock) []map[*ssa.BasicBlock]bool {
+	var out []map[*ssa.BasicBlock]bool
+
+	for _, u := range f.Blocks {
+		for _, h := range u.Succs {
+			if !dominates(h, u) {
+				continue
+			}
+
+			body := map[*ssa.BasicBlock]bool{h: true}
+			stack := []*ssa.BasicBlock{u}
+
+			for len(stack) > 0 {
+				x := stack[len(stack)-1]
+				stack = stack[:len(stack)-1]
+
+				if body[x] {
+					continue
+				}
+
+				body[x] = true
+				stack = append(stack, x.Preds...)
+			}
+
+			if body[b] {
+				out = append(out, body)
+			}
+		}
+	}
+
+	return out
 }
